@@ -1,16 +1,16 @@
 SPECIFICATION Spec
 CONSTANTS
-  Senders = {s1}
-  Probes = {x1, x2}
-  Late = {x2}
-  MaxReq = 0
-  MaxAbandon = 0
+  Senders = {s1, s2}
+  Probes = {x1}
+  Late = {}
+  MaxReq = 3
+  MaxAbandon = 2
   DirOf <- SameSide
-  Kinds = {"cast"}
-  Faults = {"exit"}
+  Kinds = {"cast", "call"}
+  Faults = {"cut"}
   TagMode = "fresh"
   ResolveMode = "bytag"
-  MaxPg = 2
+  MaxPg = 0
 INVARIANTS
   Ordered NoCrossWire TagsUnique AnsweredWasDelivered StoppedIsClean ProxyHasOriginal Mirrors
 CHECK_DEADLOCK TRUE
